@@ -11,16 +11,20 @@ def cls_alphabet():
     return one
 
 
-def parse_spaces(tier, focus=()):
-    """focus: driver names that get one more fragment of depth for this property."""
+def parse_spaces(tier, focus=(), light=False):
+    """focus: driver names that get one more fragment of depth for this property.
+    light (quick tier of the costlier oracles): class representatives to length 2, no LEX space - the lexical
+    layer is C01/C02's subject."""
     U, D = spaces.U, spaces.D
-    sp = [('SPC<=3 raw', spaces.SPC, 3, ''), ('CLS<=3 raw', cls_alphabet(), 3, ''),
-          ('ASG<=7 raw', spaces.ASG, 7, ''), ('MID<=5 blank', spaces.MID, 5, ' ')]
+    light = light and tier == 'quick'
+    sp = [('SPC<=3 raw', spaces.SPC, 3, ''), ('CLS<=%d raw' % (2 if light else 3), cls_alphabet(), 2 if light else 3, ''),
+          ('ASG<=7 raw', spaces.ASG, 7, ''), ('MID<=%d blank' % (4 if light else 5), spaces.MID, 4 if light else 5, ' ')]
     if tier == 'quick':
         sp += [('U<=3 raw', U, 3, ''), ('U<=3 blank', U, 3, ' ')]
         for name in sorted(D):
             sp.append((f'{name}<={4 if name in focus else 3} raw', D[name], 4 if name in focus else 3, ''))
-        sp.append(('LEX<=3 raw', spaces.LEX, 3, ''))
+        if not light:
+            sp.append(('LEX<=3 raw', spaces.LEX, 3, ''))
     else:
         sp += [('U<=4 raw', U, 4, ''), ('U<=3 blank', U, 3, ' ')]
         for name in sorted(D):
